@@ -29,6 +29,7 @@ inline int Explore(const char* id, ck::NodeOpts nopts, const std::function<Plan(
         while (std::getline(f, line)) if (line.rfind("history: ", 0) == 0) hist = line.substr(9);
         sim.fs.sh = new vx::ForkShared();
         sim.fs.log_fd = 1;
+        printf("base tip %s (height %d)\n", sim.base_tip.ToString().substr(0, 12).c_str(), sim.base_height);
         size_t pos = 0;
         while (pos < hist.size()) {
             size_t e = hist.find(" | ", pos);
@@ -36,6 +37,7 @@ inline int Explore(const char* id, ck::NodeOpts nopts, const std::function<Plan(
             printf("replay: %s (tip height %d)\n", ev.c_str(), node.height());
             sim.fs.hist.push_back(ev);
             sim.Apply(ev);
+            printf("   -> tip %s height %d\n", node.tip()->GetBlockHash().ToString().substr(0, 12).c_str(), node.height());
             if (e == std::string::npos) break;
             pos = e + 3;
         }
